@@ -194,3 +194,34 @@ func sortedStrings(m map[string]bool) []string {
 }
 
 func sfmt(f string, a ...interface{}) string { return fmt.Sprintf(f, a...) }
+
+// panicClassFromStack names the innermost bio-rd frame of a stack trace.
+func panicClassFromStack(stack string) string {
+	lines := []string{}
+	cur := ""
+	for _, r := range stack {
+		if r == '\n' {
+			lines = append(lines, cur)
+			cur = ""
+		} else {
+			cur += string(r)
+		}
+	}
+	for _, l := range lines {
+		const pfx = "github.com/bio-routing/bio-rd/"
+		for len(l) > 0 && (l[0] == ' ' || l[0] == '\t') {
+			l = l[1:]
+		}
+		if len(l) > len(pfx) && l[:len(pfx)] == pfx {
+			fn := l[len(pfx):]
+			for i := len(fn) - 1; i > 0; i-- {
+				if fn[i] == '(' {
+					fn = fn[:i]
+					break
+				}
+			}
+			return fn
+		}
+	}
+	return "?"
+}
